@@ -207,6 +207,18 @@ class Normalizer:
             low = self._lower_comp_stmt(st)
             if low is not None:
                 return self._block(low, cls, depth)
+        if isinstance(st, ast.Return) and isinstance(st.value, ast.Call):
+            # `return helper(...)`: the helper's own returns return from the caller -- path conditions are preserved
+            c = st.value
+            c.args = [self._hoist(a, pre, cls, depth, st) for a in c.args]
+            for kw in c.keywords:
+                kw.value = self._hoist(kw.value, pre, cls, depth, st)
+            if isinstance(c.func, ast.Attribute):
+                c.func.value = self._hoist(c.func.value, pre, cls, depth, st)
+            blk = self._inline(c, cls, depth, st, tail=True)
+            if blk is not None:
+                return pre + blk[0]
+            return pre + [st]
         if isinstance(st, ast.Expr) and isinstance(st.value, ast.Call):
             # a bare helper call: its block replaces the statement
             c = st.value
@@ -278,7 +290,7 @@ class Normalizer:
         self.k += 1
         return f"{stem}__{self.k}"
 
-    def _inline(self, call: ast.Call, cls, depth, at_stmt) -> Optional[Tuple[List[ast.stmt], str]]:
+    def _inline(self, call: ast.Call, cls, depth, at_stmt, tail: bool = False) -> Optional[Tuple[List[ast.stmt], str]]:
         if depth <= 0:
             return None
         r = self.resolve(call, cls)
@@ -302,7 +314,8 @@ class Normalizer:
             k = self.k
             ret = f"ret__{k}"
             binds = self._bind(call, fn, bind_self, k)
-            body = _tailify(body, ret)
+            if not tail:
+                body = _tailify(body, ret)
         except _CannotInline as e:
             self.opaque.append(f"{qual}: {e}")
             return None
@@ -324,7 +337,7 @@ class Normalizer:
                 continue
             a = ast.Assign(targets=[ast.Name(id=tgt, ctx=ast.Store())], value=val, lineno=getattr(at_stmt, "lineno", 0))
             stmts.append(ast.copy_location(a, at_stmt))
-        if _falls_through(body):
+        if _falls_through(body) and not tail:
             a = ast.Assign(targets=[ast.Name(id=ret, ctx=ast.Store())], value=ast.Constant(value=None), lineno=getattr(at_stmt, "lineno", 0))
             stmts.append(ast.copy_location(a, at_stmt))
         self._stack.append(qual)
@@ -332,6 +345,8 @@ class Normalizer:
             stmts.extend(self._block(body, callee_cls, depth - 1))
         finally:
             self._stack.pop()
+        if tail and _falls_through(body):
+            stmts.append(ast.copy_location(ast.Return(value=ast.Constant(value=None)), at_stmt))
         self.inlined.append(qual)
         for s in stmts:
             ast.fix_missing_locations(s)
@@ -466,8 +481,10 @@ def make_resolver(repo, module, private_only: bool = True, also: Optional[Set[st
             if len(body) == 1 and isinstance(body[0], ast.Raise):
                 return None     # abstract
             decs = [A.dotted(d) or "" for d in fn.decorator_list]
-            if any(d in ("staticmethod", "classmethod") for d in decs):
+            if "classmethod" in decs:
                 return None
+            if "staticmethod" in decs:
+                return f"{k.name}.{fn.name}", fn, cls, None
             if not fn.args.args or fn.args.args[0].arg != "self":
                 return None
             return f"{k.name}.{fn.name}", fn, cls, True
